@@ -23,7 +23,17 @@ import tla
 import vcheck
 
 ACT = {"TrustB": ("trust", "b"), "TrustC": ("trust", "c"), "DistrustB": ("distrust", "b"),
-       "DistrustC": ("distrust", "c")}
+       "DistrustC": ("distrust", "c"),
+       # a remote peer invokes an endpoint that is open to everybody (join handshake, identity, version)
+       "CallIDB": ("call:Cluster.ID", "b"), "CallIDC": ("call:Cluster.ID", "c"),
+       "CallVersionB": ("call:Cluster.Version", "b"), "CallVersionC": ("call:Cluster.Version", "c"),
+       "CallPeerAddB": ("call:Cluster.PeerAdd", "b"), "CallPeerAddC": ("call:Cluster.PeerAdd", "c")}
+ACTS = sorted(set(a for a, _ in ACT.values()))
+
+
+def rand_act(rng):
+    a = rng.choice(["trust", "distrust", "trust", "distrust", "call:Cluster.PeerAdd", rng.choice(ACTS)])
+    return {"a": a, "p": rng.choice(["b", "c"])}
 
 CONFIGS = [
     {"mode": "raft", "all": False, "list": []},
@@ -42,9 +52,9 @@ def rpc_scripts(ctx, rng):
     ctx.tlc("RPCAuthMC.tla", "RPCAuthMC_graph.cfg", workers=1, timeout=600, dump_dot=dot)
     g = tla.read_dot(dot)
     nedges = sum(len(v) for v in g.edges.values())
-    if len(g.init) != 6 or nedges != 36:
+    if len(g.init) != 6 or nedges != 90:
         raise vcheck.Infra("unexpected trust state graph: %d initial states, %d edges" % (len(g.init), nedges))
-    tours = tla.edge_tours(g, max_len=8 if ctx.quick() else 10, rng=rng)
+    tours = tla.edge_tours(g, max_len=10 if ctx.quick() else 12, rng=rng)
     scripts = []
     covered = set()
     for t in tours:
@@ -69,13 +79,13 @@ def rpc_scripts(ctx, rng):
     for _ in range(k):
         cfg = rng.choice(CONFIGS)
         hs = sorted(rng.sample(eps, rng.choice([1, 2, 5])))
-        acts = [{"a": rng.choice(["trust", "distrust"]), "p": rng.choice(["b", "c"])} for _ in range(rng.choice([0, 1, 2]))]
+        acts = [rand_act(rng) for _ in range(rng.choice([0, 1, 2]))]
         scripts.append({"cfg": cfg, "holes": hs, "acts": acts})
     if not ctx.quick():
         # longer seeded Trust/Distrust histories
         for _ in range(60):
             cfg = rng.choice(CONFIGS)
-            acts = [{"a": rng.choice(["trust", "distrust"]), "p": rng.choice(["b", "c"])} for _ in range(rng.randint(3, 8))]
+            acts = [rand_act(rng) for _ in range(rng.randint(3, 8))]
             scripts.append({"cfg": cfg, "holes": [], "acts": acts})
         # every single policy entry missing once (configuration by seed)
         for e in eps:
@@ -126,6 +136,26 @@ def pubsub_scripts(ctx, rng):
         {"trust": {"a": T(True), "b": T(False), "c": T(False, "b"), "d": T(False, "a")},
          "events": [P("c"), P("b"), P("a"), TR("b", "c"), P("c")]},
     ]
+    AP = lambda r, p: {"ev": "addpeer", "r": r, "p": p}
+    # Start-up window: a (trusts only b) runs setup() while the untrusted c is connected and
+    # publishing; a is held inside crdt.New (datastore gate) between "subscribed" and "running".
+    # Nothing c published at any point may be in a's pinset. d trusts everybody: witness that c's
+    # broadcasts travel. b does not trust c, so nothing of c can reach a through b.
+    scripts.append({"trust": {"a": T(False, "b"), "b": T(False, "a"), "c": T(True), "d": T(True)}, "down": ["a"],
+                    "events": [{"ev": "startup", "r": "a"}, P("c"), {"ev": "release", "r": "a"}, P("b"), P("c")],
+                    "complete": True, "must_see": [{"r": "d", "s": "c"}]})
+    # Join handshake: the consensus-level effect of the open endpoint Cluster.PeerAdd called by the
+    # untrusted c (Consensus.AddPeer(c)) must not make c's updates acceptable (the RPC scripts do
+    # the same through the real endpoint and sweep every other endpoint afterwards).
+    scripts.append({"trust": {"a": T(False), "b": T(False, "a"), "c": T(True), "d": T(True)},
+                    "events": [AP("a", "c"), P("c"), AP("b", "c"), P("c"), P("a")],
+                    "complete": True, "must_see": [{"r": "d", "s": "c"}]})
+    # Forged author: a third host sends a raw gossipsub messages naming the trusted b as author and
+    # carrying c's heads (captured by the relay d): unsigned, with a random signature, with a valid
+    # signature by the sender's own key. a must stay without c's update.
+    FG = lambda sig: {"ev": "forge", "r": "a", "as": "b", "of": "c", "sig": sig}
+    scripts.append({"trust": {"a": T(False, "b"), "b": T(False, "a"), "c": T(True), "d": T(False)}, "relay": ["d"],
+                    "events": [P("b"), P("c"), FG("none"), FG("bad"), FG("other")], "complete": True})
     # Relayed delivery, chain c - b - a; a and c can never connect (connection gaters), so whatever c
     # signs reaches a forwarded by b. b is a real replica that accepts c (so gossipsub forwards) and is
     # "quiet": its own heads go out only when it publishes. The validator must judge the SIGNER:
@@ -134,14 +164,14 @@ def pubsub_scripts(ctx, rng):
     scripts.append({"trust": {"a": T(False, "b"), "b": T(False, "c"), "c": T(True)},
                     "links": [["c", "b"], ["b", "a"]], "block": [["a", "c"]], "quiet": ["b"],
                     "events": [P("c"), P("b")], "complete": True,
-                    "must_see": [{"r": "b", "s": "c", "after": 0}]})
+                    "must_see": [{"r": "b", "s": "c"}]})
     # (2) symmetric: a trusts only c: c's head forwarded by the untrusted b must be accepted.
     scripts.append({"trust": {"a": T(False, "c"), "b": T(True), "c": T(True)},
                     "links": [["c", "b"], ["b", "a"]], "block": [["a", "c"]], "quiet": ["b", "c"],
                     "events": [P("c"), P("b")], "complete": True,
-                    "must_see": [{"r": "b", "s": "c", "after": 0}]})
+                    "must_see": [{"r": "b", "s": "c"}]})
     reps = ["a", "b", "c", "d"]
-    for _ in range(1 if ctx.quick() else 20):
+    for _ in range(1 if ctx.quick() else 14):
         tr = {}
         for r in reps:
             if rng.random() < 0.2:
@@ -298,14 +328,19 @@ def pubsub_stage(ctx, scripts, tag="ps"):
     incomplete = []
     for sc in scripts:
         obs = obs_of.get(sc["id"], [])
-        nrep = len([x for x in sc["trust"] if x not in sc.get("relay", [])])
         for ms in sc.get("must_see", []):
-            rounds = obs[ms["after"] * nrep:(ms["after"] + 1) * nrep]
-            if not any(l["r"] == ms["r"] and any(u["s"] == ms["s"] for u in l["pins"]) for _, l in rounds):
-                raise vcheck.Infra("vacuous relay scenario (script %d): %s did not receive the update of %s" % (
+            # "after": k = in the observation round that follows the k-th event (rounds are delimited by
+            # the non-observe lines of the trace); without it: at any time
+            if not any(l["r"] == ms["r"] and any(u["s"] == ms["s"] for u in l["pins"]) for _, l in obs):
+                raise vcheck.Infra("vacuous scenario (script %d): %s never received the update of %s" % (
                     sc["id"], ms["r"], ms["s"]))
         if sc.get("complete"):
-            for i, l in obs[-nrep:]:
+            final = {}
+            for i, l in obs:
+                final[l["r"]] = (i, l)
+            if not final:
+                raise vcheck.Infra("script %d recorded no observation" % sc["id"])
+            for i, l in final.values():
                 if i in short and i not in v["badsigner"]:
                     incomplete.append("script %d: final pinset of %s is %s, complete delivery under the "
                                       "signer-based validator gives more" % (sc["id"], l["r"], json.dumps(l["pins"])))
@@ -367,8 +402,16 @@ def run(ctx):
     setup(ctx)
     # SPEC
     ctx.tlc("RPCAuthMC.tla", "RPCAuthMC_quick.cfg" if ctx.quick() else "RPCAuthMC_thorough.cfg", workers=8, timeout=1800)
-    ctx.tlc("RPCAuthPubsubMC.tla", "RPCAuthPubsubMC_quick.cfg" if ctx.quick() else "RPCAuthPubsubMC_thorough.cfg",
-            workers=8, timeout=2400)
+    for c in (["quick", "quick2"] if ctx.quick() else ["quick", "quick2", "thorough"]):
+        ctx.tlc("RPCAuthPubsubMC.tla", "RPCAuthPubsubMC_%s.cfg" % c, workers=8, timeout=2400)
+    # the invariant must see each modelled deviation (validator registered last, lax signature policy,
+    # join handshake storing into the trusted set): these runs must end in a violation of the MODEL
+    for c in ("neg_startup", "neg_lax", "neg_join"):
+        r = ctx.tlc("RPCAuthPubsubMC.tla", "RPCAuthPubsubMC_%s.cfg" % c, workers=4, timeout=1200,
+                    expect_violation=True, count=False)
+        if not (r.violation and "IgnoresUntrusted" in r.violation):
+            raise vcheck.Infra("RPCAuthPubsubMC_%s.cfg does not violate IgnoresUntrusted: the invariant is blind to "
+                               "that deviation" % c)
     ctx.exhaustive = True
     # GEN + R + V, RPC
     scripts = rpc_scripts(ctx, rng)
